@@ -990,7 +990,15 @@ func callBuiltin(caller *frame, fn *ssa.Builtin, args []value) value {
 			return append(args[0].([]value), []value(s)...)
 		}
 		// append([]T, ...[]T) []T
-		return append(args[0].([]value), copyElems(args[1].([]value))...)
+		dst, src := args[0].([]value), args[1].([]value)
+		if caller != nil && caller.i.sch != nil && len(dst)+len(src) <= cap(dst) {
+			// in place: the spare cells of the backing array are written
+			spare := dst[:cap(dst)]
+			for i := len(dst); i < len(dst)+len(src); i++ {
+				caller.i.raceAccess(&spare[i], true)
+			}
+		}
+		return append(dst, copyElems(src)...)
 
 	case "copy": // copy([]T, []T) int or copy([]byte, string) int
 		src := args[1]
